@@ -30,7 +30,7 @@ ASSUMPTIONS = [
 def _profile(tier, **kw):
     p = DENSE.copy(**kw)
     if tier == 'thorough':
-        p.max_depth = max(p.max_depth, 4)
+        p.max_depth = max(p.max_depth, 5)
     return p
 
 
